@@ -69,7 +69,7 @@ def obligations(tier):
     kmax = 4 if tier == 'quick' else 5
     for k in range(1, kmax + 1):
         for unix in (False, True):
-            for split in (0, 1):
+            for split in (0, 1, 2, 3, 4):
                 if k >= 3 and split:
                     continue
                 firsts = [None] if k <= 2 else list(range(len(RUN_LINES)))
@@ -290,8 +290,10 @@ def _build_run(p):
                 lost0 = tr.lost
                 data = raw + b'\r\n'
                 if split:
-                    pr.dataReceived(data[:1])
-                    pr.dataReceived(data[1:])
+                    # 1: after the first byte; 2: between CR and LF; 3: before CR; 4: in the middle of the line
+                    cut = {1: 1, 2: len(data) - 1, 3: len(data) - 2, 4: len(data) // 2}[split]
+                    pr.dataReceived(data[:cut])
+                    pr.dataReceived(data[cut:])
                 else:
                     pr.dataReceived(data)
                 sent = [w for w in tr.written[n0:] if w != b'\r\n']
